@@ -254,6 +254,17 @@ func c14(x *mon.Ctx) {
 			add("field/minimum_tee_tcb_svn", fmt.Sprintf("len%d-equal-prefix#%d", n, rep), ref.Policy{MinTeeTcbSvn: m}, quotes, nil)
 			add("field/minimum_tee_tcb_svn", fmt.Sprintf("len%d-zero#%d", n, rep), ref.Policy{MinTeeTcbSvn: make([]byte, n)}, quotes, nil)
 		}
+		// the first two TEE_TCB_SVN components against their minimums, jointly: each one below / at / above, in every combination (the
+		// second is the TDX module's major version in Intel's TCB matching — in a policy it is a component like the others)
+		for d0 := -1; d0 <= 1; d0++ {
+			for d1 := -1; d1 <= 1; d1++ {
+				for _, d2 := range []int{0, 1} {
+					m := append([]byte{}, q.TeeTcbSvn...)
+					m[0], m[1], m[2] = byte(int(m[0])-d0), byte(int(m[1])-d1), byte(int(m[2])+d2)
+					add("pair/tee-tcb-svn-components-0-and-1", fmt.Sprintf("quote0%+d/quote1%+d/min2%+d#%d", d0, d1, d2, rep), ref.Policy{MinTeeTcbSvn: m}, quotes, nil)
+				}
+			}
+		}
 		// mr_td AND any_mr_td in one policy: both must hold
 		{
 			other, other2 := variant(r, "random-differs", q.MrTd), variant(r, "first-differs", q.MrTd)
